@@ -271,6 +271,10 @@ class Oracles:
                 # the edge a basic action adds / removes); it can only vanish that way, never change
                 if kind in ("undo", "redo") and "iou" not in g.edges[u, w]:
                     continue
+                # a refused stroke is rolled back: the overwritten nodes are deleted and re-created with their
+                # edges (same exemption as for their node features above, C10_frozen_paint's paint_nodes)
+                if (int(u) in exempt or int(w) in exempt) and "iou" not in g.edges[u, w]:
+                    continue
                 if (int(u), int(w)) != named and (int(u), int(w)) in before["rawe"] and not _eq(_plain(g.edges[u, w].get("iou")), before["rawe"][(int(u), int(w))]):
                     self.v("C10", "`%s` changed the disabled iou of edge (%d,%d)" % (line, u, w), line)
         if kind == "update_attrs_protected":
